@@ -23,6 +23,7 @@ struct Entry { std::uint16_t handle, end; Type type; };
 struct Resp
 {
     enum K { error, data, malformed, empty, crashed } k = malformed;
+    bool partial = false;    // well formed header, but the length is not a multiple of the pair / tuple size
     std::uint8_t code = 0; std::uint16_t err_handle = 0;
     std::vector< Entry > e;
     unsigned len = 0;        // FI: 4/18, RBT/RBGT: length byte
@@ -79,7 +80,7 @@ struct Checker
             if ( o[ 0 ] != 0x05 || ( o[ 1 ] != 1 && o[ 1 ] != 2 ) ) return r;
             r.len = o[ 1 ] == 1 ? 4 : 18;
             if ( n == 2 ) { r.k = Resp::empty; return r; }
-            if ( ( n - 2 ) % r.len ) return r;
+            if ( ( n - 2 ) % r.len ) { r.partial = true; return r; }
             for ( std::size_t p = 2; p != n; p += r.len ) r.e.push_back( Entry{ rd16( o + p ), 0, Type::raw( o + p + 2, r.len - 2 ) } );
         }
         else if ( c.kind == RBT )
@@ -87,7 +88,7 @@ struct Checker
             if ( o[ 0 ] != 0x09 || o[ 1 ] < 2 ) return r;
             r.len = o[ 1 ];
             if ( n == 2 ) { r.k = Resp::empty; return r; }
-            if ( ( n - 2 ) % r.len ) return r;
+            if ( ( n - 2 ) % r.len ) { r.partial = true; return r; }
             for ( std::size_t p = 2; p != n; p += r.len ) r.e.push_back( Entry{ rd16( o + p ), 0, Type() } );
         }
         else
@@ -95,7 +96,7 @@ struct Checker
             if ( o[ 0 ] != 0x11 || ( o[ 1 ] != 6 && o[ 1 ] != 20 ) ) return r;
             r.len = o[ 1 ];
             if ( n == 2 ) { r.k = Resp::empty; return r; }
-            if ( ( n - 2 ) % r.len ) return r;
+            if ( ( n - 2 ) % r.len ) { r.partial = true; return r; }
             for ( std::size_t p = 2; p != n; p += r.len ) r.e.push_back( Entry{ rd16( o + p ), rd16( o + p + 2 ), Type() } );
         }
         r.k = Resp::data;
@@ -108,6 +109,8 @@ struct Checker
         const char* kn = kind_names[ c.kind ];
         const std::string io = " [request " + cl.in_hex() + " -> " + cl.out_hex() + "]";
         if ( r.k == Resp::crashed ) return Fail{ mc::fmt( "crash:%s:%s", kn, cl.problem.c_str() ), "server crashed / overran the output buffer" + io };
+        if ( r.k == Resp::malformed && r.partial )
+            return Fail{ mc::fmt( "malformed-response:%s:partial-entry", kn ), mc::fmt( "response of %zu octets is not a whole number of entries of %u octets", cl.out_n, r.len ) + io };
         if ( r.k == Resp::malformed ) return Fail{ mc::fmt( "malformed-response:%s", kn ), "response is neither an Error Response nor a well formed data response" + io };
         if ( r.k == Resp::empty )
         {
@@ -271,7 +274,7 @@ int main( int argc, char** argv )
     static Checker ck;
     ck.db = gen::db(); ck.rep = &rep;
     ck.cl.init();
-    ck.suffix = ck.db.has_include ? ":cfg-with-include" : "";
+    ck.suffix = "";   // (was ":cfg-with-include" while the handle table of services with include declarations was inconsistent, C04)
 
     if ( !a.replay.empty() )
     {
@@ -300,6 +303,9 @@ int main( int argc, char** argv )
     hs.push_back( 0xFFFF );
     const std::uint16_t mtus_all[] = { 23, 24, 48, 65, 247 };
     std::vector< std::uint16_t > mtus( std::begin( mtus_all ), std::end( mtus_all ) );
+    // servers with a larger MTU: around the limit of the 8 bit length field of a Read By Type / Read By Group Type response
+    if ( gen::server_mtu > 247 )
+        for ( std::uint16_t m : { 255, 256, 257, 258, 259, 260, 512 } ) if ( m <= gen::server_mtu ) mtus.push_back( m );
 
     std::vector< Type > rbt_types;
     auto add_type = [&]( std::vector< Type >& v, const Type& t ) { for ( auto& x : v ) if ( x.n == t.n && memcmp( x.b, t.b, t.n ) == 0 ) return; v.push_back( t ); };
